@@ -239,3 +239,16 @@ package filters
 //@ props C01 C15
 //@ panics nothing
 //@ assigns nothing
+
+// truncate / truncatewords (C01, C16): no count or ellipsis makes them panic
+//@ func filter "truncate"
+//@ props C01 C16
+//@ panics values.TypeError
+//@ requires args: length != nil && ellipsis != nil
+//@ assigns alloc S$Int, alloc S$Val
+
+//@ func filter "truncatewords"
+//@ props C01 C16
+//@ panics values.TypeError
+//@ requires args: length != nil && ellipsis != nil
+//@ assigns alloc S$Int, alloc S$Val
